@@ -20,6 +20,7 @@ class Builder:
         self.ctx = interp.ctx
         self.leaves = {}      # leaf name -> (z3 const, spec)
         self.seq_leaves = {}  # name -> (n const, {key: (idx, elem const)}, spec)
+        self.stubs = {}       # arg name -> StubV
 
     def leaf(self, name, sort, spec):
         if sort == 'real':
@@ -387,6 +388,120 @@ class Fields(Spec):
         out = []
         for k, s in self.fields.items():
             out.extend(s.leaf_names(self._nm(name, k)))
+        return out
+
+
+class StubV:
+    """abstract callee: an object whose listed getters are *pure functions of
+    their keyword arguments* and otherwise unknown.  Symbolically every
+    distinct (method, arguments) pair yields one fresh real constant."""
+
+    def __init__(self, name, attrs, methods, positive, B):
+        self.name = name
+        self.attrs = attrs
+        self.methods = methods
+        self.positive = positive
+        self.B = B
+        self.memo = {}        # key -> (method, kwargs values, const)
+        self.calls = []
+
+    def sym_getattr(self, attr, interp):
+        from .values import Builtin, raise_
+        if attr in self.attrs:
+            return self.attrs[attr]
+        if attr in self.methods:
+            b = Builtin('%s.%s' % (self.name, attr),
+                        lambda *a, **kw: self._call(interp, attr, a, kw))
+            b.stub = True
+            return b
+        raise_('AttributeError', "'%s' object has no attribute '%s'"
+               % (self.name, attr))
+
+    def sym_kwargs_allowed(self):
+        return True
+
+    def _call(self, interp, method, args, kw):
+        from .values import raise_
+        if args:
+            raise_('TypeError', 'stub getters take keyword arguments only')
+        key = method + '(' + ','.join('%s=%s' % (k, _vkey(kw[k]))
+                                      for k in sorted(kw)) + ')'
+        self.calls.append((method, dict(kw)))
+        if key not in self.memo:
+            c = z3.Real('%s.%s' % (self.name, key))
+            self.memo[key] = (method, dict(kw), c)
+            if method in self.positive:
+                interp.ctx.atoms.facts.append(c > 0)
+        return Sym(self.memo[key][2])
+
+
+def _vkey(v):
+    if isinstance(v, Sym):
+        return z3.simplify(v.t).sexpr()
+    if isinstance(v, dict):
+        return '{' + ','.join('%s:%s' % (k, _vkey(x)) for k, x in
+                              sorted(v.items(), key=lambda kv: str(kv[0]))) + '}'
+    if isinstance(v, (list, tuple)):
+        return '[' + ','.join(_vkey(x) for x in v) + ']'
+    if isinstance(v, Obj):
+        return 'obj%d' % v.oid
+    if isinstance(v, StubV):
+        return 'stub:' + v.name
+    return repr(v)
+
+
+class Stub(Spec):
+    """abstract species / model (see StubV).  Natively an object whose
+    getters return base[method] + sum_k coef[k] * numeric(kwargs[k]), or the
+    value of a table entry taken from a solver model on replay."""
+    KW = ('T', 'P', 'x', 'V', 'n', 'include_ZPE', 'S_elements', 'verbose',
+          'use_references', 'raise_error', 'raise_warning', 'units', 'rev',
+          'ignore_q_elec')
+
+    def __init__(self, name, methods, positive=('get_q',), **attrs):
+        self.name = name
+        self.methods = list(methods)
+        self.positive = tuple(positive)
+        self.attrs = dict(attrs)
+        self.attrs.setdefault('name', name)
+
+    def sym(self, B, name):
+        attrs = {k: (v.sym(B, '%s.%s' % (name, k)) if isinstance(v, Spec)
+                     else _to_sym_const(v)) for k, v in self.attrs.items()}
+        st = StubV(self.name, attrs, self.methods, self.positive, B)
+        B.stubs[name] = st
+        return st
+
+    def sample(self, rng, name, asg):
+        for k, v in self.attrs.items():
+            if isinstance(v, Spec):
+                v.sample(rng, '%s.%s' % (name, k), asg)
+        for m in self.methods:
+            asg['%s.%s.base' % (name, m)] = round(rng.uniform(0.5, 3.0), 4)
+            for k in self.KW:
+                asg['%s.%s.coef.%s' % (name, m, k)] = round(
+                    rng.uniform(0.01, 0.3), 4)
+
+    def desc(self, name, asg):
+        methods = {}
+        for m in self.methods:
+            methods[m] = {
+                'base': asg.get('%s.%s.base' % (name, m), 1.0),
+                'coef': {k: asg.get('%s.%s.coef.%s' % (name, m, k), 0.1)
+                         for k in self.KW}}
+        return {'k': 'stub', 'attrs': {
+                    k: (v.desc('%s.%s' % (name, k), asg) if isinstance(v, Spec)
+                        else ({'k': 'none'} if v is None else
+                              {'k': 'const', 'v': v}))
+                    for k, v in self.attrs.items()},
+                'methods': methods,
+                'table': asg.get(name + '.__table__', [])}
+
+    def leaf_names(self, name):
+        out = []
+        for k, v in self.attrs.items():
+            if isinstance(v, Spec):
+                out.extend(v.leaf_names('%s.%s' % (name, k)))
         return out
 
 
